@@ -152,7 +152,7 @@ func runC06(r *Run) {
 	wd.Done()
 
 	// ---- pair
-	pr := r.Rule("C06.pair", "for every attribute type the code point reaching Message.Add from AddTo equals the one reaching Message.Get from GetFrom/Check and is the RFC code point of that type", 14)
+	pr := r.Rule("C06.pair", "for every attribute type the code point reaching Message.Add from AddTo equals the one reaching Message.Get from GetFrom/Check and is the RFC code point of that type; a setter/getter with an attribute-type parameter passes that parameter to Add/Get", 18)
 	{
 		var names []string
 		for n := range typeCodePoints {
@@ -187,6 +187,36 @@ func runC06(r *Run) {
 					pr.Violation(fn, fn.Pos(), fmt.Sprintf("%s.%s uses %v", tn, mn, got), fmt.Sprintf("the RFC code point of this attribute is %#04x: an attribute written under another type is not found by its getter / by other implementations", want))
 				}
 			}
+		}
+	}
+	// the As variants: a setter/getter that is told the attribute type by its caller adds/reads under that type
+	{
+		attrT := p.Named("AttrType")
+		for _, fn := range append(append([]*ssa.Function{}, cl.Setters...), cl.Getters...) {
+			var tp *ssa.Parameter
+			n := 0
+			for _, pa := range fn.Params {
+				if attrT != nil && types.Identical(pa.Type(), attrT) {
+					tp = pa
+					n++
+				}
+			}
+			if n != 1 || fn.Blocks == nil {
+				continue
+			}
+			eachInstr(fn, func(b *ssa.BasicBlock, i int, in ssa.Instruction) {
+				c, ok := in.(*ssa.Call)
+				if !ok || !(callsFn(c, add) || callsFn(c, getM)) || len(c.Call.Args) < 2 {
+					return
+				}
+				r.Analysed(fn)
+				arg := stripConvs(c.Call.Args[1])
+				okArg := arg == ssa.Value(tp)
+				pr.Instance(fnName(fn)+":as", true, map[string]interface{}{"function": fnName(fn), "type_argument": p.expr(c.Call.Args[1]), "parameter": tp.Name(), "ok": okArg})
+				if !okArg {
+					pr.Violation(fn, c.Pos(), fmt.Sprintf("%s is given the attribute type by its caller (%s) but uses %s", fnName(fn), tp.Name(), p.expr(c.Call.Args[1])), "the AddToAs/GetFromAs variants write and read under the type the caller names: under a fixed type the XOR-PEER-ADDRESS / XOR-RELAYED-ADDRESS / ALTERNATE-SERVER ... forms are not found or read another attribute's value")
+				}
+			})
 		}
 	}
 	pr.Done()
@@ -252,6 +282,9 @@ func runC06(r *Run) {
 	// reading back yields the value that was added, whatever the destination held before: every success path of a
 	// getter assigns its whole destination (shared with C07)
 	r.Borrow("C07", map[string]string{"C07.fresh": "C06.destfresh"})
+	// the XOR-ed address is keyed by m.TransactionID on the writing side and by the header bytes on the reading
+	// side: a setter that leaves the field and the header different makes every XOR address unreadable (shared with C03)
+	r.Borrow("C03", map[string]string{"C03.cohere": "C06.cohere"})
 }
 
 func checkAddrTables(r *Run, rc *RuleCtx, le *linEval, tn string, xored bool, add *ssa.Function) {
@@ -1354,6 +1387,7 @@ func setterRejectClass(p *Prog, g rejectGuard) string {
 	if !ok {
 		return "other: " + exprCanon(cond)
 	}
+	b = mirrored(b)
 	op := b.Op
 	// an attribute of a given type is present in the message (a.Type == AttrFingerprint while scanning)
 	if k, isK := constInt(b.Y); isK && (b.Op == token.EQL || b.Op == token.NEQ) {
@@ -1511,6 +1545,42 @@ func edgeRejects(p *Prog, fn *ssa.Function, iff *ssa.If, outcome bool) bool {
 // getterRejectClass classifies a reject guard of a typed getter: what it looks at is the shape of the
 // value (its length, the family code, the size helpers, the lookup itself), never the bytes that carry
 // the value proper.
+// mirrored: a comparison with its constant on the left, rewritten with the constant on the right.
+func mirrored(b *ssa.BinOp) *ssa.BinOp {
+	if _, isK := constInt(b.X); !isK {
+		return b
+	}
+	if _, isK2 := constInt(b.Y); isK2 {
+		return b
+	}
+	op := b.Op
+	switch op {
+	case token.LSS:
+		op = token.GTR
+	case token.LEQ:
+		op = token.GEQ
+	case token.GTR:
+		op = token.LSS
+	case token.GEQ:
+		op = token.LEQ
+	case token.EQL, token.NEQ:
+	default:
+		return b
+	}
+	return &ssa.BinOp{Op: op, X: b.Y, Y: b.X}
+}
+
+// strictForm: x <= k as x < k+1 and x >= k as x > k-1 (integers), so that equivalent spellings agree.
+func strictForm(op token.Token, k int64) (token.Token, int64) {
+	switch op {
+	case token.LEQ:
+		return token.LSS, k + 1
+	case token.GEQ:
+		return token.GTR, k - 1
+	}
+	return op, k
+}
+
 func getterRejectClass(p *Prog, g rejectGuard, getM *ssa.Function) string {
 	cond, when := g.Cond, g.When
 	for {
@@ -1525,6 +1595,7 @@ func getterRejectClass(p *Prog, g rejectGuard, getM *ssa.Function) string {
 	if !ok {
 		return "other: " + exprCanon(cond)
 	}
+	b = mirrored(b)
 	op := b.Op
 	if !when {
 		inv := map[token.Token]token.Token{token.LSS: token.GEQ, token.LEQ: token.GTR, token.GTR: token.LEQ, token.GEQ: token.LSS, token.EQL: token.NEQ, token.NEQ: token.EQL}
@@ -1591,7 +1662,8 @@ func getterRejectClass(p *Prog, g rejectGuard, getM *ssa.Function) string {
 		return "", false
 	}
 	if s, ok := lenOfValue(b.X); ok {
-		return fmt.Sprintf("%s %s %d", s, op, k)
+		sop, sk := strictForm(op, k)
+		return fmt.Sprintf("%s %s %d", s, sop, sk)
 	}
 	// the 16-bit family code at value[0:2)
 	if c, isC := stripConvs(b.X).(*ssa.Call); isC {
@@ -1613,8 +1685,8 @@ func getterRejectClass(p *Prog, g rejectGuard, getM *ssa.Function) string {
 
 // getterRejectReference: the reject conditions of the typed getters on the reviewed tree.
 var getterRejectReference = map[string][]string{
-	"(*MappedAddress).GetFromAs":    {"error of (*Message).Get", "len(value) <= 4", "family not in {1,2}"},
-	"(*XORMappedAddress).GetFromAs": {"error of (*Message).Get", "len(value) <= 4", "family not in {1,2}", "size helper"},
+	"(*MappedAddress).GetFromAs":    {"error of (*Message).Get", "len(value) < 5", "family not in {1,2}"},
+	"(*XORMappedAddress).GetFromAs": {"error of (*Message).Get", "len(value) < 5", "family not in {1,2}", "size helper"},
 	"(*ErrorCodeAttribute).GetFrom": {"error of (*Message).Get", "len(value) < 4"},
 	"(*TextAttribute).GetFromAs":    {"error of (*Message).Get"},
 	"(*UnknownAttributes).GetFrom":  {"error of (*Message).Get", "len(value) % 2 != 0"},
